@@ -148,6 +148,29 @@ pub fn cmd_probe(a: &Args) -> i32 {
                 viol.push("a second set_default_mailbox_capacity, made from another thread, succeeded".into());
             }
         }
+        "set-seq" => {
+            // configured exactly once, whatever the values: the first call wins even when it spells the built-in default, the
+            // second is refused even when it repeats the first; spawn() uses the first
+            let n = a.u64("n", 32) as usize;
+            let m = a.u64("m", 4) as usize;
+            obl += 3;
+            let first = rsactor::set_default_mailbox_capacity(n);
+            if let Err(e) = &first {
+                viol.push(format!("the first set_default_mailbox_capacity({n}) of the process failed: {e}"));
+            }
+            let b1 = rt.block_on(measure_default_bound());
+            let second = rsactor::set_default_mailbox_capacity(m);
+            if second.is_ok() {
+                viol.push(format!("set_default_mailbox_capacity({n}) succeeded, and so did a later set_default_mailbox_capacity({m}): the default was configured twice"));
+            }
+            let b2 = rt.block_on(measure_default_bound());
+            detail = format!("set({n}) -> {:?}, bound {b1}; set({m}) -> {:?}, bound {b2}", first.is_ok(), second.is_ok());
+            for (wh, b) in [("after the first configuration", b1), ("after the refused second configuration", b2)] {
+                if b != n {
+                    viol.push(format!("configured default capacity {n} (then tried {m}), but {wh} spawn() accepted {b} messages while the handler was held"));
+                }
+            }
+        }
         "spawn-then-set" => {
             let n = a.u64("n", 3) as usize;
             let b0 = rt.block_on(measure_default_bound());
